@@ -356,8 +356,21 @@ def zbool_of(v):
     raise OutOfReach('truth value of %r' % (v,))
 
 
+class Opaque:
+    """A value the trace abstraction does not model (rank-local data). Its truth value is unknown."""
+
+    def __repr__(self):
+        return 'Opaque'
+
+
+_opq = [0]
+
+
 def truth(v):
     """python truthiness; returns bool or z3 Bool."""
+    if isinstance(v, Opaque):
+        _opq[0] += 1
+        return z3.Bool('opaque!%d' % _opq[0])
     if is_sym(v):
         return simp(zbool_of(v))
     if isinstance(v, Fraction):
@@ -379,6 +392,8 @@ def b_not(v):
 
 
 def b_and(*vs):
+    if any(isinstance(v, Opaque) for v in vs):
+        return Opaque() if not any(isinstance(v, bool) and not v for v in vs) else False
     ts = [truth(v) for v in vs]
     if any(isinstance(t, bool) and not t for t in ts):
         return False
@@ -389,6 +404,8 @@ def b_and(*vs):
 
 
 def b_or(*vs):
+    if any(isinstance(v, Opaque) for v in vs):
+        return Opaque() if not any(isinstance(v, bool) and v for v in vs) else True
     ts = [truth(v) for v in vs]
     if any(isinstance(t, bool) and t for t in ts):
         return True
